@@ -3,6 +3,8 @@ import Ark.Proofs.ExtB
 import Mathlib.Tactic.Ring
 import Mathlib.Tactic.LinearCombination
 import Mathlib.Tactic.Linarith
+import Mathlib.Tactic.NormNum
+import Mathlib.Tactic.FieldSimp
 import Mathlib.Algebra.BigOperators.Group.List.Basic
 import Mathlib.Algebra.GroupWithZero.Basic
 import Mathlib.Algebra.Group.Submonoid.Basic
@@ -1666,4 +1668,1018 @@ theorem Bw6.fe_eq (hx : WF E.x) (hx3 : WF E.xMinus1Div3) (hconj : ∀ f, E.conj 
       rw [Bw6.hard761_copy, Bw6.copy761_eq E L CL hx hr]; rfl
 
 end bw6
+section mntval
+variable {P T : Type} [Field T] [DecidableEq T] {DT : FieldD P T} {C : CycD T}
+
+/-- `final_exponentiation_first_chunk(elt, elt_inv)` -/
+def Mnt.firstVal (L : TargetLawful DT C) (mnt6 : Bool) (elt eltInv : T) : T :=
+  if mnt6 then L.frob 1 (L.conj elt * eltInv) * (L.conj elt * eltInv) else L.conj elt * eltInv
+
+/-- `final_exponentiation` of MNT4 / MNT6 on a non-zero element -/
+def Mnt.feVal (L : TargetLawful DT C) (mnt6 neg : Bool) (c1 c0 : ℕ) (f : T) : T :=
+  (L.frob 1 (Mnt.firstVal L mnt6 f f⁻¹)) ^ c1 *
+    (if neg then (Mnt.firstVal L mnt6 f⁻¹ f) ^ c0 else (Mnt.firstVal L mnt6 f f⁻¹) ^ c0)
+
+theorem Mnt.firstVal_inv (L : TargetLawful DT C) (mnt6 : Bool) (f : T) :
+    Mnt.firstVal L mnt6 f⁻¹ f = (Mnt.firstVal L mnt6 f f⁻¹)⁻¹ := by
+  unfold Mnt.firstVal
+  cases mnt6 <;> simp [map_inv₀, mul_comm]
+
+theorem Mnt.feVal_mul (L : TargetLawful DT C) (mnt6 neg : Bool) (c1 c0 : ℕ) (f g : T) :
+    Mnt.feVal L mnt6 neg c1 c0 (f * g) =
+      Mnt.feVal L mnt6 neg c1 c0 f * Mnt.feVal L mnt6 neg c1 c0 g := by
+  unfold Mnt.feVal Mnt.firstVal
+  cases mnt6 <;> cases neg <;>
+    simp only [Bool.false_eq_true, if_false, if_true, map_mul, mul_inv, mul_pow] <;> ring
+
+end mntval
+
+section mntfe
+variable {P F G : Type} [Zero F] [DecidableEq F] [Field G] [DecidableEq G]
+  (cfg : QuadCfg G) (B : FieldD P G) (hB : BaseLawful B) (hc : QuadLawful cfg)
+  (hnr : ∀ x : G, x * x ≠ cfg.nonresidue)
+
+theorem Mnt.firstChunk_eq :
+    letI := Quad.field cfg B hB hc hnr
+    ∀ (E : Mnt P F G) (L : TargetLawful E.DT E.C) (elt eltInv : Quad G),
+      Mnt.finalExponentiationFirstChunk E elt eltInv = .ok (Mnt.firstVal L E.isMnt6 elt eltInv) := by
+  letI := Quad.field cfg B hB hc hnr
+  intro E L elt eltInv
+  unfold Mnt.finalExponentiationFirstChunk Mnt.firstVal
+  rw [L.cycInvInPlace_eq]
+  cases E.isMnt6 <;> simp [L.frob_eq]
+
+theorem Mnt.fe_eq :
+    letI := Quad.field cfg B hB hc hnr
+    ∀ (E : Mnt P F G) (L : TargetLawful E.DT E.C) (CL : CycLawful L)
+      (_h1 : WF E.finalExponentLastChunk1) (_h0 : WF E.finalExponentLastChunkAbsOfW0)
+      (_hEasy : ∀ f : Quad G, f ≠ 0 → Mnt.firstVal L E.isMnt6 f f⁻¹ ∈ CL.Cyc) (f : Quad G),
+      Mnt.finalExponentiation E f = .ok (if f = 0 then none else
+        some (Mnt.feVal L E.isMnt6 E.finalExponentLastChunkW0IsNeg (value E.finalExponentLastChunk1)
+          (value E.finalExponentLastChunkAbsOfW0) f)) := by
+  letI := Quad.field cfg B hB hc hnr
+  intro E L CL h1 h0 hEasy f
+  unfold Mnt.finalExponentiation
+  rw [L.inverse_eq]
+  by_cases hf : f = 0
+  · simp [hf]
+  · have hv1 := hEasy f hf
+    have hv2 : Mnt.firstVal L E.isMnt6 f⁻¹ f ∈ CL.Cyc := by
+      rw [Mnt.firstVal_inv]; exact CL.inv_mem _ hv1
+    simp only [hf, if_false, obind_ok, Mnt.firstChunk_eq cfg B hB hc hnr E L]
+    unfold Mnt.finalExponentiationLastChunk Mnt.feVal
+    simp only [L.frob_eq, obind_ok]
+    rw [CL.cycExp_eq _ (CL.frob_mem _ hv1 1) _ h1]
+    cases E.finalExponentLastChunkW0IsNeg
+    · simp only [Bool.false_eq_true, if_false, obind_ok]
+      rw [CL.cycExp_eq _ hv1 _ h0]; rfl
+    · simp only [if_true, obind_ok]
+      rw [CL.cycExp_eq _ hv2 _ h0]; rfl
+
+end mntfe
+/-! ## the order of the BLS12 pairing values -/
+
+section order
+variable {P T : Type} [Field T] [DecidableEq T] {DT : FieldD P T} {C : CycD T}
+  {L : TargetLawful DT C}
+
+/-- the exponent computed by the hard part of BLS12 (Hayashida–Hayasaka–Teruya) -/
+def Bls12.hardExp (x p : ℤ) : ℤ := (x - 1) ^ 2 * (x + p) * (x ^ 2 + p ^ 2 - 1) + 3
+
+theorem Bls12.hardVal_pow (CL : CycLawful L) (p : ℕ)
+    (hφ : ∀ a ∈ CL.Cyc, ∀ k, L.frob k a = a ^ (p ^ k)) (x : ℤ) {a : T} (ha : a ∈ CL.Cyc) :
+    Bls12.hardVal L.frob x a = a ^ Bls12.hardExp x p := by
+  have ha0 := CL.ne_zero a ha
+  simp only [Bls12.hardVal]
+  have e1 : a ^ x * a⁻¹ = a ^ (x - 1) := by rw [zpow_sub_one₀ ha0]
+  rw [e1]
+  have e2 : (a ^ (x - 1))⁻¹ * (a ^ (x - 1)) ^ x = a ^ ((x - 1) ^ 2) := by
+    rw [← zpow_neg, ← zpow_mul, ← zpow_add₀ ha0]; congr 1; ring
+  rw [e2]
+  have hz : a ^ ((x - 1) ^ 2) ∈ CL.Cyc := CL.zpow_mem ha _
+  have hz0 := CL.ne_zero _ hz
+  rw [hφ _ hz 1]
+  have e3 : (a ^ ((x - 1) ^ 2)) ^ p ^ 1 * (a ^ ((x - 1) ^ 2)) ^ x = a ^ ((x - 1) ^ 2 * (x + p)) := by
+    rw [← zpow_natCast, ← zpow_mul, ← zpow_mul, ← zpow_add₀ ha0]; congr 1; push_cast; ring
+  rw [e3]
+  have hs : a ^ ((x - 1) ^ 2 * (x + p)) ∈ CL.Cyc := CL.zpow_mem ha _
+  rw [hφ _ hs 2]
+  rw [← zpow_natCast, ← zpow_neg, ← zpow_mul, ← zpow_mul, ← zpow_mul, ← zpow_add₀ ha0,
+    ← zpow_add₀ ha0]
+  have e4 : a * (a * a) = a ^ (3 : ℤ) := by
+    rw [show (3 : ℤ) = ((3 : ℕ) : ℤ) from rfl, zpow_natCast]; ring
+  rw [e4, ← zpow_add₀ ha0, Bls12.hardExp]
+  congr 1; push_cast; ring
+
+/-- `3·Φ₁₂(p) = hardExp(x, p)·r` for the BLS12 parametrisation `3p = (x-1)²(x⁴-x²+1) + 3x`,
+    `r = x⁴-x²+1` -/
+theorem Bls12.hardExp_mul_r (x p r : ℤ) (hp : 3 * p = (x - 1) ^ 2 * (x ^ 4 - x ^ 2 + 1) + 3 * x)
+    (hr : r = x ^ 4 - x ^ 2 + 1) :
+    Bls12.hardExp x p * r = 3 * (p ^ 4 - p ^ 2 + 1) := by
+  have h27 : (27 : ℤ) * (Bls12.hardExp x p * r) = 27 * (3 * (p ^ 4 - p ^ 2 + 1)) := by
+    have : (27 : ℤ) * (Bls12.hardExp x p * r) =
+        ((x - 1) ^ 2 * (3 * x + 3 * p) * (9 * x ^ 2 + (3 * p) ^ 2 - 9) + 81) * r := by
+      unfold Bls12.hardExp; ring
+    rw [this, hp, hr]
+    have : (27 : ℤ) * (3 * (p ^ 4 - p ^ 2 + 1)) = (3 * p) ^ 4 - 9 * (3 * p) ^ 2 + 81 := by ring
+    rw [this, hp]
+    ring
+  exact mul_left_cancel₀ (by norm_num) h27
+
+end order
+/-! ## the trait level: `multi_pairing`, `pairing` -/
+
+section engine
+variable {A A' B B' T : Type} [CommMonoid T]
+
+/-- the value of a computation that did not panic -/
+def okVal {α : Type} (d : α) : Outcome α → α
+  | .ok a => a
+  | .panic => d
+
+theorem exists_lift (pa : A → A') (prep : B → Outcome B') (l : List (A × B × T)) (bs : List B')
+    (h : mapO prep (l.map (·.2.1)) = .ok bs) :
+    ∃ l' : List (A' × B' × T), l'.map (·.1) = (l.map (·.1)).map pa ∧ l'.map (·.2.1) = bs ∧
+      l'.map (·.2.2) = l.map (·.2.2) ∧
+      ∀ t' ∈ l', ∃ t ∈ l, t'.1 = pa t.1 ∧ prep t.2.1 = .ok t'.2.1 ∧ t'.2.2 = t.2.2 := by
+  induction l generalizing bs with
+  | nil =>
+    simp only [List.map_nil, mapO, Outcome.ok.injEq] at h
+    subst h
+    exact ⟨[], rfl, rfl, rfl, by simp⟩
+  | cons t l ih =>
+    simp only [List.map_cons, mapO] at h
+    obtain ⟨b, hb, h⟩ := obind_eq_ok.1 h
+    obtain ⟨bs', hbs', h⟩ := obind_eq_ok.1 h
+    simp only [Outcome.ok.injEq] at h
+    subst h
+    obtain ⟨l', h1, h2, h3, h4⟩ := ih bs' hbs'
+    refine ⟨(pa t.1, b, t.2.2) :: l', by simp [h1], by simp [h2], by simp [h3], ?_⟩
+    intro t' ht'
+    rcases List.mem_cons.1 ht' with rfl | ht'
+    · exact ⟨t, List.mem_cons_self, rfl, hb, rfl⟩
+    · obtain ⟨t0, ht0, e⟩ := h4 t' ht'
+      exact ⟨t0, List.mem_cons_of_mem _ ht0, e⟩
+
+/-- lifting "multi = product" from prepared to affine inputs -/
+theorem prod_lift (pa : A → A') (prep : B → Outcome B') (mp : List A' → List B' → Outcome T)
+    (hmp : ∀ (l' : List (A' × B' × T)) (v : T), mp (l'.map (·.1)) (l'.map (·.2.1)) = .ok v →
+      (∀ t ∈ l', mp [t.1] [t.2.1] = .ok t.2.2) → v = (l'.map (·.2.2)).prod)
+    (l : List (A × B × T)) (v : T)
+    (h : (obind (mapO prep (l.map (·.2.1))) fun b' => mp ((l.map (·.1)).map pa) b') = .ok v)
+    (hl : ∀ t ∈ l, (obind (mapO prep [t.2.1]) fun b' => mp ([t.1].map pa) b') = .ok t.2.2) :
+    v = (l.map (·.2.2)).prod := by
+  obtain ⟨bs, hbs, h⟩ := obind_eq_ok.1 h
+  obtain ⟨l', h1, h2, h3, h4⟩ := exists_lift pa prep l bs hbs
+  rw [← h1, ← h2] at h
+  rw [← h3]
+  refine hmp l' v h ?_
+  intro t' ht'
+  obtain ⟨t, ht, e1, e2, e3⟩ := h4 t' ht'
+  have := hl t ht
+  simp only [mapO, e2, obind_ok, List.map_cons, List.map_nil] at this
+  rw [e1, e3]; exact this
+
+/-- `multi_pairing = Π pairing` from "multi Miller loop = product" and a multiplicative final
+    exponentiation -/
+theorem Engine.multiPairing_prod (En : Engine A B T) (Φ : T → T)
+    (hΦ : ∀ a b, Φ (a * b) = Φ a * Φ b) (hΦ1 : Φ 1 = 1)
+    (hfe : ∀ f w, En.finalExponentiation f = .ok (some w) → w = Φ f)
+    (hmm : ∀ (l : List (A × B × T)) (v : T),
+      En.multiMillerLoop (l.map (·.1)) (l.map (·.2.1)) = .ok v →
+      (∀ t ∈ l, En.multiMillerLoop [t.1] [t.2.1] = .ok t.2.2) → v = (l.map (·.2.2)).prod)
+    (l : List (A × B × T)) (v : T)
+    (h : En.multiPairing (l.map (·.1)) (l.map (·.2.1)) = .ok v)
+    (hl : ∀ t ∈ l, En.pairing t.1 t.2.1 = .ok t.2.2) :
+    v = (l.map (·.2.2)).prod := by
+  have key : ∀ a b w, En.multiPairing a b = .ok w →
+      ∃ m, En.multiMillerLoop a b = .ok m ∧ w = Φ m := by
+    intro a b w hw
+    unfold Engine.multiPairing at hw
+    obtain ⟨m, hm, hw⟩ := obind_eq_ok.1 hw
+    obtain ⟨o, ho, hw⟩ := obind_eq_ok.1 hw
+    cases o with
+    | none => simp [unwrap] at hw
+    | some w' =>
+      simp only [unwrap, Outcome.ok.injEq] at hw
+      subst hw
+      exact ⟨m, hm, hfe m _ ho⟩
+  obtain ⟨m, hm, rfl⟩ := key _ _ _ h
+  let mOf : A × B × T → T := fun t => okVal 1 (En.multiMillerLoop [t.1] [t.2.1])
+  have hsingle : ∀ t ∈ l, En.multiMillerLoop [t.1] [t.2.1] = .ok (mOf t) ∧ t.2.2 = Φ (mOf t) := by
+    intro t ht
+    obtain ⟨mt, hmt, e⟩ := key _ _ _ (hl t ht)
+    have : mOf t = mt := by simp only [mOf, hmt, okVal]
+    rw [this]; exact ⟨hmt, e⟩
+  have := hmm (l.map fun t => (t.1, t.2.1, mOf t)) m
+    (by rw [List.map_map, List.map_map]; exact hm)
+    (by
+      intro t' ht'
+      obtain ⟨t, ht, rfl⟩ := List.mem_map.1 ht'
+      exact (hsingle t ht).1)
+  rw [this]
+  let Φh : T →* T := ⟨⟨Φ, hΦ1⟩, hΦ⟩
+  show Φh _ = _
+  rw [map_list_prod]
+  congr 1
+  simp only [List.map_map]
+  apply List.map_congr_left
+  intro t ht
+  exact ((hsingle t ht).2).symm
+
+end engine
+/-! ## identity pairs -/
+
+section ident12
+variable {P F G T : Type} [Add G] [Sub G] [Mul G] [Neg G] [Field T] [DecidableEq T]
+
+theorem Bls12.multi_cons_identity (E : Bls12 P F G T) (p : Aff F) (q : G2Prepared G)
+    (as : List (Aff F)) (bs : List (G2Prepared G)) (h : p.infinity = true ∨ q.infinity = true) :
+    Bls12.multiMillerLoopPrepared E (p :: as) (q :: bs) = Bls12.multiMillerLoopPrepared E as bs := by
+  rw [Bls12.multi_eq, Bls12.multi_eq]
+  simp only [zipEq]
+  cases zipEq as bs with
+  | panic => rfl
+  | ok zs =>
+    have : Bls12.sel (p, q) = none := by
+      unfold Bls12.sel; rcases h with h | h <;> simp [h]
+    simp only [obind_ok, List.filterMap_cons, this]
+
+theorem Bls12.multi_nil (E : Bls12 P F G T) (L : TargetLawful E.DT E.C) :
+    Bls12.multiMillerLoopPrepared E [] [] = .ok 1 := by
+  rw [Bls12.multi_eq]
+  simp only [zipEq, obind_ok, List.filterMap_nil, Bls12.chunked, chunks4_nil, overChunks, product,
+    List.foldl_nil]
+  cases E.xIsNegative <;> simp [L.cycInvInPlace_eq]
+
+theorem Bls12.g2Prepare_infinity (E : Bls12 P F G T) (q : Aff G) (q' : G2Prepared G)
+    (hq : Bls12.g2Prepare E q = .ok q') (h : q.infinity = true) : q'.infinity = true := by
+  unfold Bls12.g2Prepare at hq
+  obtain ⟨ti, _, hq⟩ := obind_eq_ok.1 hq
+  simp only [Aff.xy, h, if_true, Outcome.ok.injEq] at hq
+  rw [← hq]
+
+theorem Bls12.hardVal_one (φ : ℕ → T →*₀ T) (x : ℤ) : Bls12.hardVal φ x (1 : T) = 1 := by
+  simp [Bls12.hardVal]
+
+theorem easy12_one {DT : FieldD P T} {C : CycD T} (L : TargetLawful DT C) : easy12 L (1 : T) = 1 := by
+  simp [easy12]
+
+theorem Bn.multi_cons_identity (E : Bn P F G T) (p : Aff F) (q : G2Prepared G)
+    (as : List (Aff F)) (bs : List (G2Prepared G)) (h : p.infinity = true ∨ q.infinity = true) :
+    Bn.multiMillerLoopPrepared E (p :: as) (q :: bs) = Bn.multiMillerLoopPrepared E as bs := by
+  rw [Bn.multi_eq, Bn.multi_eq]
+  simp only [zipEq]
+  cases zipEq as bs with
+  | panic => rfl
+  | ok zs =>
+    have : Bn.sel (p, q) = none := by
+      unfold Bn.sel; rcases h with h | h <;> simp [h]
+    simp only [obind_ok, List.filterMap_cons, this]
+
+theorem Bn.multi_nil (E : Bn P F G T) (L : TargetLawful E.DT E.C) :
+    Bn.multiMillerLoopPrepared E [] [] = .ok 1 := by
+  rw [Bn.multi_eq]
+  simp only [zipEq, obind_ok, List.filterMap_nil, Bn.chunked, chunks4_nil, overChunks, product,
+    List.foldl_nil, Bn.post_eq E L, ellRound]
+  unfold Bn.post
+  cases E.xIsNegative <;> simp
+
+theorem Bn.g2Prepare_infinity (E : Bn P F G T) (q : Aff G) (q' : G2Prepared G)
+    (hq : Bn.g2Prepare E q = .ok q') (h : q.infinity = true) : q'.infinity = true := by
+  unfold Bn.g2Prepare at hq
+  simp only [h, if_true, Outcome.ok.injEq] at hq
+  rw [← hq]
+
+theorem Bn.hardVal_one (φ : ℕ → T →*₀ T) (x : ℤ) : Bn.hardVal φ x (1 : T) = 1 := by
+  simp [Bn.hardVal]
+
+end ident12
+
+section ident6
+variable {P F T : Type} [Add F] [Sub F] [Mul F] [Neg F] [Field T] [DecidableEq T]
+
+theorem Bw6.multi_cons_identity (E : Bw6 P F T) (p : Aff F) (q : Bw6G2Prepared F)
+    (as : List (Aff F)) (bs : List (Bw6G2Prepared F)) (h : p.infinity = true ∨ q.infinity = true) :
+    Bw6.multiMillerLoopPrepared E (p :: as) (q :: bs) = Bw6.multiMillerLoopPrepared E as bs := by
+  rw [Bw6.multi_eq, Bw6.multi_eq]
+  simp only [zipEq]
+  cases zipEq as bs with
+  | panic => rfl
+  | ok zs =>
+    have : Bw6.keep (p, q) = false := by
+      unfold Bw6.keep; rcases h with h | h <;> simp [h]
+    simp only [obind_ok, List.filter_cons, this, Bool.false_eq_true, if_false]
+
+theorem Bw6.multi_nil (E : Bw6 P F T) (L : TargetLawful E.DT E.C) :
+    Bw6.multiMillerLoopPrepared E [] [] = .ok 1 := by
+  rw [Bw6.multi_eq]
+  have hi := Bw6.invStep_one E L
+  unfold Bw6.invStep at hi
+  simp only [zipEq, obind_ok, List.filter_nil, Bw6.chunked, List.map_nil, chunks4_nil, overChunks,
+    overChunksIdx, product, List.foldl_nil, hi, mul_one]
+  cases E.ateLoopCount2IsNegative <;> cases E.tModRIsZero <;>
+    simp [L.cycInvInPlace_eq, L.frob_eq]
+
+theorem Bw6.g2Prepare_infinity (E : Bw6 P F T) (q : Aff F) (q' : Bw6G2Prepared F)
+    (hq : Bw6.g2Prepare E q = .ok q') (h : q.infinity = true) : q'.infinity = true := by
+  unfold Bw6.g2Prepare at hq
+  simp only [h, if_true, Outcome.ok.injEq] at hq
+  rw [← hq]
+
+theorem easy6_one {DT : FieldD P T} {C : CycD T} (L : TargetLawful DT C) : easy6 L (1 : T) = 1 := by
+  simp [easy6]
+
+theorem Bw6.hardVal_one (E : Bw6 P F T) (φ : ℕ → T →*₀ T) : Bw6.hardVal E φ (1 : T) = 1 := by
+  unfold Bw6.hardVal
+  split
+  · simp [Bw6.hard761Val, bindv]
+  · split
+    · simp [Bw6.hardGenValT, bindv]
+    · simp [Bw6.hardGenValF, bindv]
+
+end ident6
+
+section identMnt
+variable {P F G : Type} [Zero F] [DecidableEq F] [Field G] [DecidableEq G]
+
+theorem Mnt.multi_cons_identity [Mul (Quad G)] (E : Mnt P F G) (p : MntG1Prepared F G)
+    (q : MntG2Prepared G) (as : List (MntG1Prepared F G)) (bs : List (MntG2Prepared G))
+    (h : Mnt.g1IsZero p = true ∨ Mnt.g2IsZero q = true) :
+    Mnt.multiMillerLoopPrepared E (p :: as) (q :: bs) = Mnt.multiMillerLoopPrepared E as bs := by
+  rw [Mnt.multi_eq, Mnt.multi_eq]
+  simp only [zipEq]
+  cases zipEq as bs with
+  | panic => rfl
+  | ok zs =>
+    have : Mnt.keep (p, q) = false := by
+      unfold Mnt.keep; rcases h with h | h <;> simp [h]
+    simp only [obind_ok, List.filter_cons, this, Bool.false_eq_true, if_false]
+
+theorem Mnt.g1Prepare_infinity [Mul (Quad G)] (E : Mnt P F G) (p : Aff F) (h : p.infinity = true) :
+    Mnt.g1IsZero (Mnt.g1Prepare E p) = true := by
+  simp [Mnt.g1Prepare, Mnt.g1IsZero, h, Aff.identity]
+
+theorem Mnt.g2Prepare_infinity [Mul (Quad G)] (E : Mnt P F G) (q : Aff G) (h : q.infinity = true) :
+    ∃ q', Mnt.g2Prepare E q = .ok q' ∧ Mnt.g2IsZero q' = true := by
+  refine ⟨⟨0, 0, 0, 0, [], []⟩, ?_, ?_⟩
+  · simp [Mnt.g2Prepare, h]
+  · simp [Mnt.g2IsZero]
+
+theorem Mnt.firstVal_one {T : Type} [Field T] [DecidableEq T] {DT : FieldD P T} {C : CycD T}
+    (L : TargetLawful DT C) (b : Bool) : Mnt.firstVal L b (1 : T) 1 = 1 := by
+  unfold Mnt.firstVal; cases b <;> simp
+
+theorem Mnt.feVal_one {T : Type} [Field T] [DecidableEq T] {DT : FieldD P T} {C : CycD T}
+    (L : TargetLawful DT C) (b n : Bool) (c1 c0 : ℕ) : Mnt.feVal L b n c1 c0 (1 : T) = 1 := by
+  unfold Mnt.feVal
+  rw [inv_one, Mnt.firstVal_one]
+  cases n <;> simp
+
+end identMnt
+
+/-! ## the four engines -/
+
+theorem fe_some_of_eq {T : Type} [Field T] [DecidableEq T] (Φ : T → T) (fe : T → Outcome (Option T))
+    (h : ∀ f, fe f = .ok (if f = 0 then none else some (Φ f))) (f w : T)
+    (hw : fe f = .ok (some w)) : w = Φ f := by
+  rw [h] at hw
+  by_cases hf : f = 0
+  · simp [hf] at hw
+  · simp only [hf, if_false, Outcome.ok.injEq, Option.some.injEq] at hw
+    exact hw.symm
+
+theorem fe_some_of_eq' {T : Type} [Field T] [DecidableEq T] (Φ : T → T) (fe : T → Outcome (Option T))
+    (h : ∀ f, fe f = if f = 0 then .panic else .ok (some (Φ f))) (f w : T)
+    (hw : fe f = .ok (some w)) : w = Φ f := by
+  rw [h] at hw
+  by_cases hf : f = 0
+  · simp [hf] at hw
+  · simp only [hf, if_false, Outcome.ok.injEq, Option.some.injEq] at hw
+    exact hw.symm
+
+section eng12
+variable {P F G T : Type} [Add G] [Sub G] [Mul G] [Neg G] [Field T] [DecidableEq T]
+
+/-- `impl Pairing for Bls12<P>` -/
+def Bls12.engine (E : Bls12 P F G T) : Engine (Aff F) (Aff G) T :=
+  ⟨Bls12.multiMillerLoop E, Bls12.finalExponentiation E⟩
+
+/-- the value of the final exponentiation of BLS12 on a non-zero element -/
+def Bls12.feVal (E : Bls12 P F G T) (L : TargetLawful E.DT E.C) (f : T) : T :=
+  Bls12.hardVal L.frob (sval E.xIsNegative E.x) (easy12 L f)
+
+theorem Bls12.feVal_mul (E : Bls12 P F G T) (L : TargetLawful E.DT E.C) (f g : T) :
+    Bls12.feVal E L (f * g) = Bls12.feVal E L f * Bls12.feVal E L g := by
+  unfold Bls12.feVal; rw [easy12_mul, Bls12.hardVal_mul]
+
+theorem Bls12.feVal_one (E : Bls12 P F G T) (L : TargetLawful E.DT E.C) : Bls12.feVal E L 1 = 1 := by
+  unfold Bls12.feVal; rw [easy12_one, Bls12.hardVal_one]
+
+theorem Bls12.multiMillerLoop_prod (E : Bls12 P F G T) (hS : SparseLawful E.S)
+    (L : TargetLawful E.DT E.C) (l : List (Aff F × Aff G × T)) (v : T)
+    (h : Bls12.multiMillerLoop E (l.map (·.1)) (l.map (·.2.1)) = .ok v)
+    (hl : ∀ t ∈ l, Bls12.multiMillerLoop E [t.1] [t.2.1] = .ok t.2.2) :
+    v = (l.map (·.2.2)).prod :=
+  prod_lift id (Bls12.g2Prepare E) (Bls12.multiMillerLoopPrepared E) (Bls12.multi_prod E hS L) l v
+    (by rw [List.map_id]; exact h) (fun t ht => hl t ht)
+
+theorem Bls12.multiPairing_prod (E : Bls12 P F G T) (hS : SparseLawful E.S)
+    (L : TargetLawful E.DT E.C) (CL : CycLawful L) (hx : WF E.x)
+    (hEasy : ∀ f, f ≠ 0 → easy12 L f ∈ CL.Cyc) (l : List (Aff F × Aff G × T)) (v : T)
+    (h : (Bls12.engine E).multiPairing (l.map (·.1)) (l.map (·.2.1)) = .ok v)
+    (hl : ∀ t ∈ l, (Bls12.engine E).pairing t.1 t.2.1 = .ok t.2.2) :
+    v = (l.map (·.2.2)).prod :=
+  Engine.multiPairing_prod (Bls12.engine E) (Bls12.feVal E L) (Bls12.feVal_mul E L)
+    (Bls12.feVal_one E L)
+    (fe_some_of_eq _ _ (Bls12.fe_eq E L CL hx hEasy))
+    (Bls12.multiMillerLoop_prod E hS L) l v h hl
+
+theorem Bls12.pairing_identity (E : Bls12 P F G T)
+    (L : TargetLawful E.DT E.C) (CL : CycLawful L) (hx : WF E.x)
+    (hEasy : ∀ f, f ≠ 0 → easy12 L f ∈ CL.Cyc) (p : Aff F) (q : Aff G) (q' : G2Prepared G)
+    (hq : Bls12.g2Prepare E q = .ok q') (h : p.infinity = true ∨ q.infinity = true) :
+    (Bls12.engine E).pairing p q = .ok 1 := by
+  have h' : p.infinity = true ∨ q'.infinity = true :=
+    h.imp id (Bls12.g2Prepare_infinity E q q' hq)
+  have hm : Bls12.multiMillerLoop E [p] [q] = .ok 1 := by
+    unfold Bls12.multiMillerLoop
+    simp only [mapO, hq, obind_ok]
+    rw [Bls12.multi_cons_identity E p q' [] [] h', Bls12.multi_nil E L]
+  unfold Engine.pairing Engine.multiPairing Bls12.engine
+  simp only [hm, obind_ok, Bls12.fe_eq E L CL hx hEasy, one_ne_zero, if_false, unwrap]
+  exact congrArg _ (Bls12.feVal_one E L)
+
+/-- `impl Pairing for Bn<P>` -/
+def Bn.engine (E : Bn P F G T) : Engine (Aff F) (Aff G) T :=
+  ⟨Bn.multiMillerLoop E, Bn.finalExponentiation E⟩
+
+def Bn.feVal (E : Bn P F G T) (L : TargetLawful E.DT E.C) (f : T) : T :=
+  Bn.hardVal L.frob (sval (!E.xIsNegative) E.x) (easy12 L f)
+
+theorem Bn.feVal_mul (E : Bn P F G T) (L : TargetLawful E.DT E.C) (f g : T) :
+    Bn.feVal E L (f * g) = Bn.feVal E L f * Bn.feVal E L g := by
+  unfold Bn.feVal; rw [easy12_mul, Bn.hardVal_mul]
+
+theorem Bn.feVal_one (E : Bn P F G T) (L : TargetLawful E.DT E.C) : Bn.feVal E L 1 = 1 := by
+  unfold Bn.feVal; rw [easy12_one, Bn.hardVal_one]
+
+theorem Bn.multiMillerLoop_prod (E : Bn P F G T) (hS : SparseLawful E.S)
+    (L : TargetLawful E.DT E.C) (l : List (Aff F × Aff G × T)) (v : T)
+    (h : Bn.multiMillerLoop E (l.map (·.1)) (l.map (·.2.1)) = .ok v)
+    (hl : ∀ t ∈ l, Bn.multiMillerLoop E [t.1] [t.2.1] = .ok t.2.2) :
+    v = (l.map (·.2.2)).prod :=
+  prod_lift id (Bn.g2Prepare E) (Bn.multiMillerLoopPrepared E) (Bn.multi_prod E hS L) l v
+    (by rw [List.map_id]; exact h) (fun t ht => hl t ht)
+
+theorem Bn.multiPairing_prod (E : Bn P F G T) (hS : SparseLawful E.S)
+    (L : TargetLawful E.DT E.C) (CL : CycLawful L) (hx : WF E.x)
+    (hEasy : ∀ f, f ≠ 0 → easy12 L f ∈ CL.Cyc) (l : List (Aff F × Aff G × T)) (v : T)
+    (h : (Bn.engine E).multiPairing (l.map (·.1)) (l.map (·.2.1)) = .ok v)
+    (hl : ∀ t ∈ l, (Bn.engine E).pairing t.1 t.2.1 = .ok t.2.2) :
+    v = (l.map (·.2.2)).prod :=
+  Engine.multiPairing_prod (Bn.engine E) (Bn.feVal E L) (Bn.feVal_mul E L) (Bn.feVal_one E L)
+    (fe_some_of_eq _ _ (Bn.fe_eq E L CL hx hEasy))
+    (Bn.multiMillerLoop_prod E hS L) l v h hl
+
+theorem Bn.pairing_identity (E : Bn P F G T)
+    (L : TargetLawful E.DT E.C) (CL : CycLawful L) (hx : WF E.x)
+    (hEasy : ∀ f, f ≠ 0 → easy12 L f ∈ CL.Cyc) (p : Aff F) (q : Aff G) (q' : G2Prepared G)
+    (hq : Bn.g2Prepare E q = .ok q') (h : p.infinity = true ∨ q.infinity = true) :
+    (Bn.engine E).pairing p q = .ok 1 := by
+  have h' : p.infinity = true ∨ q'.infinity = true :=
+    h.imp id (Bn.g2Prepare_infinity E q q' hq)
+  have hm : Bn.multiMillerLoop E [p] [q] = .ok 1 := by
+    unfold Bn.multiMillerLoop
+    simp only [mapO, hq, obind_ok]
+    rw [Bn.multi_cons_identity E p q' [] [] h', Bn.multi_nil E L]
+  unfold Engine.pairing Engine.multiPairing Bn.engine
+  simp only [hm, obind_ok, Bn.fe_eq E L CL hx hEasy, one_ne_zero, if_false, unwrap]
+  exact congrArg _ (Bn.feVal_one E L)
+
+end eng12
+
+section eng6
+variable {P F T : Type} [Add F] [Sub F] [Mul F] [Neg F] [Field T] [DecidableEq T]
+
+/-- `impl Pairing for BW6<P>` -/
+def Bw6.engine (E : Bw6 P F T) : Engine (Aff F) (Aff F) T :=
+  ⟨Bw6.multiMillerLoop E, Bw6.finalExponentiation E⟩
+
+def Bw6.feVal (E : Bw6 P F T) (L : TargetLawful E.DT E.C) (f : T) : T :=
+  Bw6.hardVal E L.frob (easy6 L f)
+
+theorem Bw6.feVal_mul (E : Bw6 P F T) (L : TargetLawful E.DT E.C) (f g : T) :
+    Bw6.feVal E L (f * g) = Bw6.feVal E L f * Bw6.feVal E L g := by
+  unfold Bw6.feVal; rw [easy6_mul, Bw6.hardVal_mul]
+
+theorem Bw6.feVal_one (E : Bw6 P F T) (L : TargetLawful E.DT E.C) : Bw6.feVal E L 1 = 1 := by
+  unfold Bw6.feVal; rw [easy6_one, Bw6.hardVal_one]
+
+theorem Bw6.multiMillerLoop_prod (E : Bw6 P F T) (hS : SparseLawful E.S)
+    (L : TargetLawful E.DT E.C) (l : List (Aff F × Aff F × T)) (v : T)
+    (h : Bw6.multiMillerLoop E (l.map (·.1)) (l.map (·.2.1)) = .ok v)
+    (hl : ∀ t ∈ l, Bw6.multiMillerLoop E [t.1] [t.2.1] = .ok t.2.2) :
+    v = (l.map (·.2.2)).prod :=
+  prod_lift id (Bw6.g2Prepare E) (Bw6.multiMillerLoopPrepared E) (Bw6.multi_prod E hS L) l v
+    (by rw [List.map_id]; exact h) (fun t ht => hl t ht)
+
+theorem Bw6.multiPairing_prod (E : Bw6 P F T) (hS : SparseLawful E.S)
+    (L : TargetLawful E.DT E.C) (CL : CycLawful L) (hx : WF E.x) (hx3 : WF E.xMinus1Div3)
+    (hconj : ∀ f, E.conj f = L.conj f)
+    (hEasy : ∀ f, f ≠ 0 → easy6 L f ∈ CL.Cyc) (l : List (Aff F × Aff F × T)) (v : T)
+    (h : (Bw6.engine E).multiPairing (l.map (·.1)) (l.map (·.2.1)) = .ok v)
+    (hl : ∀ t ∈ l, (Bw6.engine E).pairing t.1 t.2.1 = .ok t.2.2) :
+    v = (l.map (·.2.2)).prod :=
+  Engine.multiPairing_prod (Bw6.engine E) (Bw6.feVal E L) (Bw6.feVal_mul E L) (Bw6.feVal_one E L)
+    (fe_some_of_eq' _ _ (Bw6.fe_eq E L CL hx hx3 hconj hEasy))
+    (Bw6.multiMillerLoop_prod E hS L) l v h hl
+
+theorem Bw6.pairing_identity (E : Bw6 P F T)
+    (L : TargetLawful E.DT E.C) (CL : CycLawful L) (hx : WF E.x) (hx3 : WF E.xMinus1Div3)
+    (hconj : ∀ f, E.conj f = L.conj f)
+    (hEasy : ∀ f, f ≠ 0 → easy6 L f ∈ CL.Cyc) (p : Aff F) (q : Aff F) (q' : Bw6G2Prepared F)
+    (hq : Bw6.g2Prepare E q = .ok q') (h : p.infinity = true ∨ q.infinity = true) :
+    (Bw6.engine E).pairing p q = .ok 1 := by
+  have h' : p.infinity = true ∨ q'.infinity = true :=
+    h.imp id (Bw6.g2Prepare_infinity E q q' hq)
+  have hm : Bw6.multiMillerLoop E [p] [q] = .ok 1 := by
+    unfold Bw6.multiMillerLoop
+    simp only [mapO, hq, obind_ok]
+    rw [Bw6.multi_cons_identity E p q' [] [] h', Bw6.multi_nil E L]
+  unfold Engine.pairing Engine.multiPairing Bw6.engine
+  simp only [hm, obind_ok, Bw6.fe_eq E L CL hx hx3 hconj hEasy, one_ne_zero, if_false, unwrap]
+  exact congrArg _ (Bw6.feVal_one E L)
+
+end eng6
+
+section engMnt
+variable {P F G : Type} [Zero F] [DecidableEq F] [Field G] [DecidableEq G]
+  (cfg : QuadCfg G) (B : FieldD P G) (hB : BaseLawful B) (hc : QuadLawful cfg)
+  (hnr : ∀ x : G, x * x ≠ cfg.nonresidue)
+
+/-- `impl Pairing for MNT4<P>` / `MNT6<P>` -/
+def Mnt.engine [Mul (Quad G)] (E : Mnt P F G) : Engine (Aff F) (Aff G) (Quad G) :=
+  ⟨Mnt.multiMillerLoop E, Mnt.finalExponentiation E⟩
+
+theorem Mnt.multiMillerLoop_prod :
+    letI := Quad.commRing cfg B hB hc
+    ∀ (E : Mnt P F G) (l : List (Aff F × Aff G × Quad G)) (v : Quad G),
+      Mnt.multiMillerLoop E (l.map (·.1)) (l.map (·.2.1)) = .ok v →
+      (∀ t ∈ l, Mnt.multiMillerLoop E [t.1] [t.2.1] = .ok t.2.2) →
+      v = (l.map (·.2.2)).prod := by
+  letI := Quad.commRing cfg B hB hc
+  intro E l v h hl
+  exact prod_lift (Mnt.g1Prepare E) (Mnt.g2Prepare E) (Mnt.multiMillerLoopPrepared E)
+    (Mnt.multi_prod cfg B hB hc E) l v h (fun t ht => hl t ht)
+
+theorem Mnt.multiPairing_prod :
+    letI := Quad.field cfg B hB hc hnr
+    ∀ (E : Mnt P F G) (L : TargetLawful E.DT E.C) (CL : CycLawful L)
+      (_h1 : WF E.finalExponentLastChunk1) (_h0 : WF E.finalExponentLastChunkAbsOfW0)
+      (_hEasy : ∀ f : Quad G, f ≠ 0 → Mnt.firstVal L E.isMnt6 f f⁻¹ ∈ CL.Cyc)
+      (l : List (Aff F × Aff G × Quad G)) (v : Quad G),
+      (Mnt.engine E).multiPairing (l.map (·.1)) (l.map (·.2.1)) = .ok v →
+      (∀ t ∈ l, (Mnt.engine E).pairing t.1 t.2.1 = .ok t.2.2) →
+      v = (l.map (·.2.2)).prod := by
+  letI := Quad.field cfg B hB hc hnr
+  intro E L CL h1 h0 hEasy l v h hl
+  exact Engine.multiPairing_prod (Mnt.engine E)
+    (Mnt.feVal L E.isMnt6 E.finalExponentLastChunkW0IsNeg (value E.finalExponentLastChunk1)
+      (value E.finalExponentLastChunkAbsOfW0))
+    (Mnt.feVal_mul L _ _ _ _) (Mnt.feVal_one L _ _ _ _)
+    (fe_some_of_eq _ _ (Mnt.fe_eq cfg B hB hc hnr E L CL h1 h0 hEasy))
+    (Mnt.multiMillerLoop_prod cfg B hB hc E) l v h hl
+
+theorem Mnt.pairing_identity :
+    letI := Quad.field cfg B hB hc hnr
+    ∀ (E : Mnt P F G) (L : TargetLawful E.DT E.C) (CL : CycLawful L)
+      (_h1 : WF E.finalExponentLastChunk1) (_h0 : WF E.finalExponentLastChunkAbsOfW0)
+      (_hEasy : ∀ f : Quad G, f ≠ 0 → Mnt.firstVal L E.isMnt6 f f⁻¹ ∈ CL.Cyc)
+      (p : Aff F) (q : Aff G) (q' : MntG2Prepared G), Mnt.g2Prepare E q = .ok q' →
+      (p.infinity = true ∨ q.infinity = true) → (Mnt.engine E).pairing p q = .ok 1 := by
+  letI := Quad.field cfg B hB hc hnr
+  intro E L CL h1 h0 hEasy p q q' hq h
+  have h' : Mnt.g1IsZero (Mnt.g1Prepare E p) = true ∨ Mnt.g2IsZero q' = true := by
+    rcases h with h | h
+    · exact Or.inl (Mnt.g1Prepare_infinity E p h)
+    · obtain ⟨q'', hq'', hz⟩ := Mnt.g2Prepare_infinity E q h
+      rw [hq] at hq''
+      cases hq''
+      exact Or.inr hz
+  have hm : Mnt.multiMillerLoop E [p] [q] = .ok 1 := by
+    unfold Mnt.multiMillerLoop
+    simp only [mapO, hq, obind_ok, List.map_cons, List.map_nil]
+    rw [Mnt.multi_cons_identity E _ q' [] [] h']
+    rfl
+  unfold Engine.pairing Engine.multiPairing Mnt.engine
+  simp only [hm, obind_ok, Mnt.fe_eq cfg B hB hc hnr E L CL h1 h0 hEasy, one_ne_zero, if_false, unwrap]
+  exact congrArg _ (Mnt.feVal_one L _ _ _ _)
+
+end engMnt
+section order2
+variable {P F G T : Type} [Add G] [Sub G] [Mul G] [Neg G] [Field T] [DecidableEq T]
+
+/-- the output of the BLS12 final exponentiation is killed by `r` -/
+theorem Bls12.fe_order (E : Bls12 P F G T) (L : TargetLawful E.DT E.C) (CL : CycLawful L)
+    (hx : WF E.x) (hEasy : ∀ f, f ≠ 0 → easy12 L f ∈ CL.Cyc) (p r : ℕ)
+    (hφ : ∀ a ∈ CL.Cyc, ∀ k, L.frob k a = a ^ (p ^ k))
+    (hcyc : ∀ a ∈ CL.Cyc, a ^ ((p : ℤ) ^ 4 - (p : ℤ) ^ 2 + 1) = 1)
+    (hp : 3 * (p : ℤ) = (sval E.xIsNegative E.x - 1) ^ 2 *
+      ((sval E.xIsNegative E.x) ^ 4 - (sval E.xIsNegative E.x) ^ 2 + 1) + 3 * sval E.xIsNegative E.x)
+    (hr : (r : ℤ) = (sval E.xIsNegative E.x) ^ 4 - (sval E.xIsNegative E.x) ^ 2 + 1)
+    (f out : T) (h : Bls12.finalExponentiation E f = .ok (some out)) : out ^ r = 1 := by
+  rw [Bls12.fe_eq E L CL hx hEasy] at h
+  by_cases hf : f = 0
+  · simp [hf] at h
+  · simp only [hf, if_false, Outcome.ok.injEq, Option.some.injEq] at h
+    have ha := hEasy f hf
+    rw [Bls12.hardVal_pow CL p hφ _ ha] at h
+    rw [← h, ← zpow_natCast, ← zpow_mul, Bls12.hardExp_mul_r _ _ _ hp hr, mul_comm, zpow_mul,
+      hcyc _ ha, one_zpow]
+
+/-- the easy part as a power, when the Frobenius and the conjugation are powers on all of `T` -/
+theorem easy12_pow {DT : FieldD P T} {C : CycD T} (L : TargetLawful DT C) (p : ℕ)
+    (hφ : ∀ a k, L.frob k a = a ^ (p ^ k)) (hconj : ∀ a, L.conj a = a ^ (p ^ 6)) (f : T)
+    (hf : f ≠ 0) : easy12 L f = f ^ (((p : ℤ) ^ 6 - 1) * ((p : ℤ) ^ 2 + 1)) := by
+  unfold easy12
+  rw [hφ, hconj]
+  have e : f ^ p ^ 6 * f⁻¹ = f ^ ((p : ℤ) ^ 6 - 1) := by
+    rw [zpow_sub_one₀ hf, ← zpow_natCast]; push_cast; rfl
+  rw [e, ← zpow_natCast, ← zpow_mul, ← zpow_add₀ hf]
+  congr 1; push_cast; ring
+
+/-- **BLS12 final exponentiation as a power**: `f ↦ f ^ k` with `k · r = 3 (p¹² - 1)` -/
+theorem Bls12.fe_pow (E : Bls12 P F G T) (L : TargetLawful E.DT E.C) (CL : CycLawful L)
+    (hx : WF E.x) (hEasy : ∀ f, f ≠ 0 → easy12 L f ∈ CL.Cyc) (p r : ℕ)
+    (hφ : ∀ a k, L.frob k a = a ^ (p ^ k)) (hconj : ∀ a, L.conj a = a ^ (p ^ 6))
+    (hp : 3 * (p : ℤ) = (sval E.xIsNegative E.x - 1) ^ 2 *
+      ((sval E.xIsNegative E.x) ^ 4 - (sval E.xIsNegative E.x) ^ 2 + 1) + 3 * sval E.xIsNegative E.x)
+    (hr : (r : ℤ) = (sval E.xIsNegative E.x) ^ 4 - (sval E.xIsNegative E.x) ^ 2 + 1)
+    (f : T) (hf : f ≠ 0) :
+    Bls12.finalExponentiation E f = .ok (some (f ^
+      ((((p : ℤ) ^ 6 - 1) * ((p : ℤ) ^ 2 + 1)) * Bls12.hardExp (sval E.xIsNegative E.x) p))) ∧
+    ((((p : ℤ) ^ 6 - 1) * ((p : ℤ) ^ 2 + 1)) * Bls12.hardExp (sval E.xIsNegative E.x) p) * r =
+      3 * ((p : ℤ) ^ 12 - 1) := by
+  constructor
+  · rw [Bls12.fe_eq E L CL hx hEasy, if_neg hf,
+      Bls12.hardVal_pow CL p (fun a _ k => hφ a k) _ (hEasy f hf), easy12_pow L p hφ hconj f hf,
+      ← zpow_mul]
+  · rw [mul_assoc, Bls12.hardExp_mul_r _ _ _ hp hr]; ring
+
+end order2
+/-! ## instances of the lawfulness hypotheses -/
+
+section primeInst
+variable (F : Type) [Field F] [DecidableEq F]
+
+/-- a prime field (or any field with the trivial Frobenius, e.g. `ℚ`) as a "target field":
+    `CycD.default` (plain-bit exponentiation, `cyclotomic_inverse = inverse`) -/
+def primeTarget : TargetLawful (primeD F) (CycD.default (primeD F)) where
+  conj := invMonoidWithZeroHom
+  frob := fun _ => MonoidWithZeroHom.id F
+  square_eq := fun _ => rfl
+  inverse_eq := fun _ => rfl
+  frob_eq := fun _ _ => rfl
+  cycInverse_eq := fun _ => rfl
+
+/-- … whose "cyclotomic subgroup" is the whole multiplicative group -/
+def primeCyc : CycLawful (primeTarget F) where
+  Cyc := { carrier := {a | a ≠ 0}, mul_mem' := fun ha hb => mul_ne_zero ha hb, one_mem' := one_ne_zero }
+  ne_zero := fun _ ha => ha
+  conj_eq := fun _ _ => rfl
+  inv_mem := fun _ ha => inv_ne_zero ha
+  frob_mem := fun _ ha _ => ha
+  cycSquare_eq := fun _ _ => rfl
+  cycExp_eq := fun a ha e he =>
+    cycExp_units (CycD.default (primeD F)) (Units.mk0 a ha) ha (fun _ => rfl) (fun h => by cases h) e he
+
+theorem primeCyc_easy12 (f : F) (hf : f ≠ 0) : easy12 (primeTarget F) f ∈ (primeCyc F).Cyc := by
+  show easy12 (primeTarget F) f ≠ 0
+  simp [easy12, primeTarget, hf]
+
+theorem primeCyc_easy6 (f : F) (hf : f ≠ 0) : easy6 (primeTarget F) f ∈ (primeCyc F).Cyc := by
+  show easy6 (primeTarget F) f ≠ 0
+  simp [easy6, primeTarget, hf]
+
+/-- a degenerate target: trivial conjugation and Frobenius, trivial cyclotomic subgroup -/
+def trivCycD : CycD F := ⟨false, fun a => a * a, fun a => .ok (if a = 0 then none else some a)⟩
+
+def trivTarget : TargetLawful (primeD F) (trivCycD F) where
+  conj := MonoidWithZeroHom.id F
+  frob := fun _ => MonoidWithZeroHom.id F
+  square_eq := fun _ => rfl
+  inverse_eq := fun _ => rfl
+  frob_eq := fun _ _ => rfl
+  cycInverse_eq := fun _ => rfl
+
+def trivCyc : CycLawful (trivTarget F) where
+  Cyc := ⊥
+  ne_zero := fun a ha => by rw [Submonoid.mem_bot.1 ha]; exact one_ne_zero
+  conj_eq := fun a ha => by rw [Submonoid.mem_bot.1 ha]; simp [trivTarget]
+  inv_mem := fun a ha => by rw [Submonoid.mem_bot.1 ha]; simp
+  frob_mem := fun a ha _ => ha
+  cycSquare_eq := fun _ _ => rfl
+  cycExp_eq := fun a ha e he => by
+    rw [Submonoid.mem_bot.1 ha]
+    exact cycExp_units (trivCycD F) 1 one_ne_zero (fun _ => by simp [trivCycD])
+      (fun h => by cases h) e he
+
+theorem trivCyc_easy12 (f : F) (hf : f ≠ 0) : easy12 (trivTarget F) f ∈ (trivCyc F).Cyc := by
+  show easy12 (trivTarget F) f ∈ (⊥ : Submonoid F)
+  rw [Submonoid.mem_bot]
+  simp [easy12, trivTarget, hf]
+
+end primeInst
+section quadInst
+variable {P F : Type} [Field F] [DecidableEq F]
+  (cfg : QuadCfg F) (B : FieldD P F) (hB : BaseLawful B) (hc : QuadLawful cfg)
+  (hnr : ∀ x : F, x * x ≠ cfg.nonresidue)
+
+/-- the conjugation of the quadratic extension is multiplicative -/
+def quadConj : letI := Quad.field cfg B hB hc hnr
+    Quad F →*₀ Quad F :=
+  letI := Quad.field cfg B hB hc hnr
+  { toFun := Quad.conj
+    map_zero' := by apply Quad.ext' <;> simp [Quad.conj]
+    map_one' := by apply Quad.ext' <;> simp [Quad.conj]
+    map_mul' := by
+      intro a b
+      show Quad.conj (Quad.mul cfg B a b) = Quad.mul cfg B (Quad.conj a) (Quad.conj b)
+      rw [Quad.mul_eq hB hc, Quad.mul_eq hB hc]
+      apply Quad.ext' <;> simp only [Quad.conj] <;> ring }
+
+/-- the quadratic layer of a tower (`Quad.fieldD`, `CycD.conj`) is a lawful target field as soon as its
+    Frobenius maps are total and multiplicative (`Ark.C02.quad_frob_pow`, `fp4_frob_pow`, …) -/
+def quadTarget (cs : Option (Quad F → Quad F))
+    (fr : letI := Quad.field cfg B hB hc hnr; ℕ → Quad F →*₀ Quad F)
+    (hfr : ∀ a k, Quad.frob cfg B a k = .ok (fr k a)) :
+    letI := Quad.field cfg B hB hc hnr
+    TargetLawful (Quad.fieldD cfg B) (CycD.conj (Quad.fieldD cfg B) cs) :=
+  letI := Quad.field cfg B hB hc hnr
+  { conj := quadConj cfg B hB hc hnr
+    frob := fr
+    square_eq := fun f => Quad.square_eq hB hc f
+    inverse_eq := fun f => (Quad.fieldD_baseLawful hB hc hnr).inverse f
+    frob_eq := hfr
+    cycInverse_eq := by
+      intro f
+      show (if f.c0 = 0 ∧ f.c1 = 0 then _ else _) = _
+      by_cases h : f = 0
+      · rw [if_pos ((Quad.eq_zero_iff f).1 h), if_pos h]
+      · rw [if_neg (fun h' => h ((Quad.eq_zero_iff f).2 h')), if_neg h]; rfl }
+
+/-- … whose cyclotomic subgroup is the group of unitary elements (with the generic squaring) -/
+def quadCyc (fr : letI := Quad.field cfg B hB hc hnr; ℕ → Quad F →*₀ Quad F)
+    (hfr : ∀ a k, Quad.frob cfg B a k = .ok (fr k a))
+    (hfrn : ∀ a k, Quad.norm cfg B a = 1 → Quad.norm cfg B (fr k a) = 1) :
+    letI := Quad.field cfg B hB hc hnr
+    CycLawful (quadTarget cfg B hB hc hnr none fr hfr) :=
+  letI := Quad.field cfg B hB hc hnr
+  { Cyc :=
+      { carrier := {a | Quad.norm cfg B a = 1}
+        mul_mem' := by
+          intro a b ha hb
+          show Quad.norm cfg B (Quad.mul cfg B a b) = 1
+          rw [Quad.norm_mul hB hc, ha, hb, mul_one]
+        one_mem' := Quad.norm_one hB hc }
+    ne_zero := by
+      intro a ha h
+      exact Quad.ne_zero_of_norm_one hB hc a ha ((Quad.eq_zero_iff a).1 h)
+    conj_eq := by
+      intro a ha
+      exact eq_inv_of_mul_eq_one_right (Quad.mul_conj_of_norm_one hB hc a ha)
+    inv_mem := by
+      intro a ha
+      have : a⁻¹ = Quad.conj a :=
+        (eq_inv_of_mul_eq_one_right (Quad.mul_conj_of_norm_one hB hc a ha)).symm
+      show Quad.norm cfg B a⁻¹ = 1
+      rw [this, Quad.norm_conj hB hc]; exact ha
+    frob_mem := fun a ha k => hfrn a k ha
+    cycSquare_eq := fun a _ => Quad.square_eq hB hc a
+    cycExp_eq := fun a ha e he => Quad.cycExp_conj hB hc a ha e he }
+
+theorem quadCyc_mem (fr : letI := Quad.field cfg B hB hc hnr; ℕ → Quad F →*₀ Quad F)
+    (hfr : ∀ a k, Quad.frob cfg B a k = .ok (fr k a))
+    (hfrn : ∀ a k, Quad.norm cfg B a = 1 → Quad.norm cfg B (fr k a) = 1) (a : Quad F) :
+    letI := Quad.field cfg B hB hc hnr
+    a ∈ (quadCyc cfg B hB hc hnr fr hfr hfrn).Cyc ↔ Quad.norm cfg B a = 1 := Iff.rfl
+
+/-- `conj f · f⁻¹` is unitary -/
+theorem quad_conj_mul_inv_norm (f : Quad F) (hf : f ≠ 0) :
+    letI := Quad.field cfg B hB hc hnr
+    Quad.norm cfg B (quadConj cfg B hB hc hnr f * f⁻¹) = 1 := by
+  letI := Quad.field cfg B hB hc hnr
+  have hn := Quad.norm_ne_zero hB hc hnr f hf
+  have h1 : Quad.norm cfg B f * Quad.norm cfg B f⁻¹ = 1 := by
+    have := Quad.norm_mul hB hc f f⁻¹
+    have e : Quad.mul cfg B f f⁻¹ = 1 := mul_inv_cancel₀ hf
+    rw [e, Quad.norm_one hB hc] at this
+    exact this.symm
+  show Quad.norm cfg B (Quad.mul cfg B (Quad.conj f) f⁻¹) = 1
+  rw [Quad.norm_mul hB hc, Quad.norm_conj hB hc, h1]
+
+end quadInst
+/-! ## the indexed form of "multi = product of singles" -/
+
+section indexed
+variable {A B T : Type} [CommMonoid T]
+
+theorem exists_triples (as : List A) (bs : List B) (hlen : as.length = bs.length) (vi : ℕ → T) :
+    ∃ l : List (A × B × T), l.map (·.1) = as ∧ l.map (·.2.1) = bs ∧
+      l.map (·.2.2) = (List.range as.length).map vi ∧
+      ∀ t ∈ l, ∃ i, as[i]? = some t.1 ∧ bs[i]? = some t.2.1 ∧ t.2.2 = vi i := by
+  induction as generalizing bs vi with
+  | nil =>
+    cases bs with
+    | nil => exact ⟨[], rfl, rfl, rfl, by simp⟩
+    | cons b bs => simp at hlen
+  | cons a as ih =>
+    cases bs with
+    | nil => simp at hlen
+    | cons b bs =>
+      obtain ⟨l, h1, h2, h3, h4⟩ := ih bs (by simpa using hlen) (fun i => vi (i + 1))
+      refine ⟨(a, b, vi 0) :: l, by simp [h1], by simp [h2], ?_, ?_⟩
+      · rw [List.map_cons, h3, List.length_cons, List.range_succ_eq_map, List.map_cons,
+          List.map_map]
+        rfl
+      · intro t ht
+        rcases List.mem_cons.1 ht with rfl | ht
+        · exact ⟨0, rfl, rfl, rfl⟩
+        · obtain ⟨i, e1, e2, e3⟩ := h4 t ht
+          exact ⟨i + 1, by simpa using e1, by simpa using e2, e3⟩
+
+/-- from the list-of-triples form to the indexed form -/
+theorem prod_indexed (mp : List A → List B → Outcome T)
+    (hmp : ∀ (l : List (A × B × T)) (v : T), mp (l.map (·.1)) (l.map (·.2.1)) = .ok v →
+      (∀ t ∈ l, mp [t.1] [t.2.1] = .ok t.2.2) → v = (l.map (·.2.2)).prod)
+    (hlen : ∀ as bs v, mp as bs = .ok v → as.length = bs.length)
+    (as : List A) (bs : List B) (v : T) (vi : ℕ → T) (h : mp as bs = .ok v)
+    (hi : ∀ i a b, as[i]? = some a → bs[i]? = some b → mp [a] [b] = .ok (vi i)) :
+    v = ((List.range as.length).map vi).prod := by
+  obtain ⟨l, h1, h2, h3, h4⟩ := exists_triples as bs (hlen as bs v h) vi
+  rw [← h3]
+  refine hmp l v (by rw [h1, h2]; exact h) ?_
+  intro t ht
+  obtain ⟨i, e1, e2, e3⟩ := h4 t ht
+  rw [e3]
+  exact hi i _ _ e1 e2
+
+theorem length_of_zipEq_bind {γ : Type} (k : List (A × B) → Outcome γ) (as : List A) (bs : List B)
+    (v : γ) (h : (obind (zipEq as bs) k) = .ok v) : as.length = bs.length := by
+  obtain ⟨zs, hz, _⟩ := obind_eq_ok.1 h
+  obtain ⟨h1, h2⟩ := zipEq_ok hz
+  rw [h1, h2, List.length_map, List.length_map]
+
+end indexed
+
+/-! ## concrete instances used by the non-vacuity examples of `Ark/Props/C06.lean` -/
+namespace Ex
+
+/-- dummy G2-coordinate dictionary over `ℚ` -/
+def K : G2Field ℚ ℚ := ⟨fun x => x * x, fun x => x + x, fun g f => g * f⟩
+
+/-- dummy line evaluations: multiplication by an element depending on the coefficients only -/
+def S : SparseMul ℚ ℚ := ⟨fun f a b c => f * (a + b + c), fun f a b c => f * (a + 2 * b + 3 * c)⟩
+
+theorem S_lawful : SparseLawful S := ⟨fun f a b c => by simp [S], fun f a b c => by simp [S]⟩
+
+/-- a BLS12-shaped configuration over `ℚ`: `x = -3` -/
+def bls : Bls12 ℚ ℚ ℚ ℚ where
+  x := [3]
+  xIsNegative := true
+  twist := .M
+  coeffB := 4
+  BF := primeD ℚ
+  one := 1
+  K := K
+  oneG := 1
+  S := S
+  DT := primeD ℚ
+  C := CycD.default (primeD ℚ)
+
+/-- a BN-shaped configuration over `ℚ` -/
+def bn : Bn ℚ ℚ ℚ ℚ where
+  x := [2]
+  xIsNegative := false
+  ateLoopCount := [0, 1, -1, 1]
+  twist := .D
+  twistMulByQX := 2
+  twistMulByQY := 3
+  coeffB := 3
+  BF := primeD ℚ
+  one := 1
+  K := K
+  oneG := 1
+  frobG := fun g _ => .ok g
+  S := S
+  DT := primeD ℚ
+  C := CycD.default (primeD ℚ)
+
+/-- a BW6-shaped configuration over `ℚ` -/
+def bw6 (override tmod : Bool) : Bw6 ℚ ℚ ℚ where
+  x := [2]
+  xIsNegative := false
+  xMinus1Div3 := [1]
+  ateLoopCount1 := [3]
+  ateLoopCount1IsNegative := false
+  ateLoopCount2 := [1, 0, -1, 1]
+  ateLoopCount2IsNegative := true
+  twist := .M
+  hT := 13
+  hY := 9
+  tModRIsZero := tmod
+  coeffB := 1
+  BF := primeD ℚ
+  one := 1
+  K := K
+  S := S
+  DT := primeD ℚ
+  C := CycD.default (primeD ℚ)
+  conj := fun f => f⁻¹
+  hardPartOverride := override
+
+def pt (x y : ℚ) : Aff ℚ := ⟨x, y, false⟩
+def O : Aff ℚ := Aff.identity
+
+/-- a prepared G2 point with constant dummy coefficients (`n` of them) -/
+def prep (n : Nat) (c : ℚ) : G2Prepared ℚ := ⟨List.replicate n (c, c + 1, c + 2), false⟩
+def prep6 (n1 n2 : Nat) (c : ℚ) : Bw6G2Prepared ℚ :=
+  ⟨List.replicate n1 (c, c + 1, c + 2), List.replicate n2 (c + 1, c, c + 3), false⟩
+
+
+/-! ### the Gaussian rationals `ℚ(i) = Quad ℚ` (an honest quadratic layer: `Quad.mul`, `Quad.frob`,
+    `CycD.conj`) -/
+
+def c2 : Fp2Cfg ℚ := Fp2Cfg.default (-1) [1, -1]
+
+theorem c2_lawful : QuadLawful c2.wrap := Fp2Cfg.default_wrap_lawful _ _
+
+theorem c2_nonsq : ∀ x : ℚ, x * x ≠ c2.wrap.nonresidue := by
+  intro x
+  show x * x ≠ -1
+  nlinarith [mul_self_nonneg x]
+
+/-- the field structure of `ℚ(i)` carried by the model's operations -/
+@[reducible] def fieldQi : Field (Quad ℚ) :=
+  Quad.field c2.wrap (primeD ℚ) primeD_lawful c2_lawful c2_nonsq
+
+/-- the Frobenius maps of `ℚ(i)` computed by `Quad.frob` with the table `[1, -1]`: the powers of
+    the conjugation -/
+def frQ : letI := fieldQi; ℕ → Quad ℚ →*₀ Quad ℚ :=
+  letI := fieldQi
+  fun k => if k % 2 = 0 then MonoidWithZeroHom.id _
+    else quadConj c2.wrap (primeD ℚ) primeD_lawful c2_lawful c2_nonsq
+
+theorem frQ_eq (a : Quad ℚ) (k : ℕ) : Quad.frob c2.wrap (primeD ℚ) a k = .ok (frQ k a) := by
+  letI := fieldQi
+  rcases Nat.mod_two_eq_zero_or_one k with h | h
+  · simp only [Quad.frob, primeD, Fp2Cfg.wrap, c2, Fp2Cfg.default, obind_ok, h, index, frQ]
+    simp
+  · simp only [Quad.frob, primeD, Fp2Cfg.wrap, c2, Fp2Cfg.default, obind_ok, h, index, frQ]
+    simp [quadConj]
+    rfl
+
+theorem frQ_norm (a : Quad ℚ) (k : ℕ) (ha : Quad.norm c2.wrap (primeD ℚ) a = 1) :
+    Quad.norm c2.wrap (primeD ℚ) (frQ k a) = 1 := by
+  letI := fieldQi
+  unfold frQ
+  split
+  · exact ha
+  · show Quad.norm c2.wrap (primeD ℚ) (Quad.conj a) = 1
+    rw [Quad.norm_conj primeD_lawful c2_lawful]; exact ha
+
+/-- `ℚ(i)` as a lawful target field -/
+def LQi : letI := fieldQi
+    TargetLawful (Quad.fieldD c2.wrap (primeD ℚ)) (CycD.conj (Quad.fieldD c2.wrap (primeD ℚ)) none) :=
+  quadTarget c2.wrap (primeD ℚ) primeD_lawful c2_lawful c2_nonsq none frQ frQ_eq
+
+/-- … with the unit circle as cyclotomic subgroup -/
+def CLQi : letI := fieldQi
+    CycLawful LQi :=
+  quadCyc c2.wrap (primeD ℚ) primeD_lawful c2_lawful c2_nonsq frQ frQ_eq frQ_norm
+
+/-- an MNT4-shaped configuration with `G = ℚ`, target `ℚ(i)` -/
+def mnt : Mnt ℚ ℚ ℚ where
+  isMnt6 := false
+  twist := 2
+  twistCoeffA := 3
+  ateLoopCount := [1, 0, 1]
+  ateIsLoopCountNeg := false
+  finalExponentLastChunk1 := [1]
+  finalExponentLastChunkW0IsNeg := true
+  finalExponentLastChunkAbsOfW0 := [3]
+  mulByFp := fun g f => g * f
+  embed := fun f => f
+  oneG := 1
+  DG := primeD ℚ
+  DT := Quad.fieldD c2.wrap (primeD ℚ)
+  C := CycD.conj (Quad.fieldD c2.wrap (primeD ℚ)) none
+
+/-- a prepared G1 / G2 point with dummy coefficients -/
+def g1 (x y : ℚ) : MntG1Prepared ℚ ℚ := ⟨x, y, 2 * x, 2 * y⟩
+def g2 (c : ℚ) : MntG2Prepared ℚ :=
+  ⟨c, c + 1, c / 2, (c + 1) / 2, [⟨c, 1, 2, 3⟩, ⟨1, c, 3, 2⟩], [⟨c + 2, c + 3⟩]⟩
+
+end Ex
 end Ark.PairingP
